@@ -2,7 +2,7 @@
 
 Each plan holds a few cases (seed, parameters, switches, request history).  The same cases are
 executed in several *fresh interpreters* that differ in exactly one environment knob each
-(PYTHONHASHSEED, virtual epoch / pacing, polluted global random state, import order, TZ) plus one
+(PYTHONHASHSEED, virtual epoch / pacing / backward steps of the wall clock, polluted global random state, import order, TZ) plus one
 that changes everything; model and transcript digests must be identical.  A share of the cases
 goes through the real `gallia script vecu rng` command on the simulated network.
 """
@@ -22,7 +22,7 @@ from simkit.world import quiet_logging
 
 from gallia.services.uds.server import RandomUDSServer
 
-BASE_ENV = {"hashseed": "0", "epoch": 0.0, "pace": 1.0, "pollute": None, "import_first": "server", "tz": None}
+BASE_ENV = {"hashseed": "0", "epoch": 0.0, "pace": 1.0, "pollute": None, "import_first": "server", "tz": None, "steps_back": 0.0}
 
 
 def run_child(env: dict[str, Any], cases: list[dict[str, Any]]) -> dict[str, Any]:
@@ -126,11 +126,11 @@ class C16(Check):
         variants = [
             ("hashseed", {"hashseed": rng.choice(["1", "4242", "random"])}),
             ("hashseed2", {"hashseed": "random"}),
-            ("clock", {"epoch": rng.choice([-1.0e9, 3.3e7, 1234.5]), "pace": rng.choice([0.0, 0.5, 2.0, 4.0])}),
+            ("clock", {"epoch": rng.choice([-1.0e9, 3.3e7, 1234.5]), "pace": rng.choice([0.0, 0.5, 2.0, 4.0]), "steps_back": rng.choice([0.0, 0.0, 0.5, 15.0, 3600.0])}),
             ("global-random", {"pollute": rng.randrange(1, 10**6)}),
             ("import-order", {"import_first": "commands"}),
             ("tz", {"tz": rng.choice(["Asia/Kolkata", "America/St_Johns", "UTC", "Pacific/Chatham"])}),
-            ("all", {"hashseed": "random", "epoch": 9.9e8, "pace": 3.0, "pollute": 4711, "import_first": "commands", "tz": "Asia/Tokyo"}),
+            ("all", {"hashseed": "random", "epoch": 9.9e8, "pace": 3.0, "pollute": 4711, "import_first": "commands", "tz": "Asia/Tokyo", "steps_back": 30.0}),
         ]
         plan["envs"] = [["baseline", dict(BASE_ENV)]] + [[name, {**BASE_ENV, **delta}] for name, delta in variants]
         return plan
